@@ -162,7 +162,7 @@ def _repr_macros(P: Program) -> Dict[str, str]:
     return out
 
 
-def _macro_channels(P: Program) -> Tuple[Set[str], Set[str], str]:
+def _macro_channels(P: Program) -> Tuple[Set[str], Set[str], Optional[str]]:
     """(macros that can fail while a result is FETCHED, macros that can fail while a statement runs, the statement text the
     fetch site hands to the mapper)"""
     macros = sqlx.load_macros(P)
@@ -181,9 +181,7 @@ def _macro_channels(P: Program) -> Tuple[Set[str], Set[str], str]:
         if isinstance(n, ast.Call) and getattr(n.func, "id", "") == "_map_query_error" and len(n.args) > 1:
             vals = P.const_values(fr, fr.module, n.args[1])
             arg = sorted(vals)[0] if vals and len(vals) == 1 else 'UPDATE "t" SET "c" = ' + sorted(seeds)[0] + '("c")'
-    if arg is None:
-        raise AnalysisError("fetch_result no longer maps duckdb.Error through _map_query_error")
-    return fetch, set(macros), arg
+    return fetch, set(macros), arg  # arg None: the fetch site does not map duckdb errors at all
 
 
 def holds(cond: ast.AST, text_lower: str) -> Optional[bool]:
@@ -241,7 +239,7 @@ def run(rep: Report, tier: str) -> None:
         # representation step passes "" (no statement text); statement execution passes the generated SQL, which contains
         # the macro call / the error(...) expression itself
         if kind == "macro" and where.split(":", 1)[-1] in fetch_macros:
-            site_texts = [("result fetching (apply_time_period_representation)", fetch_sql_arg)]
+            site_texts = [("result fetching (apply_time_period_representation)" + ("" if fetch_sql_arg is not None else ", where fetch_result applies no error mapping"), fetch_sql_arg)]
         elif kind == "macro":
             site_texts = [("statement execution", f"SELECT {where.split(':', 1)[-1]}(x) FROM t")]
         else:
@@ -250,7 +248,7 @@ def run(rep: Report, tier: str) -> None:
             site_texts.append(("statement execution", f"SELECT {where.split(':', 1)[-1]}(x) FROM t"))
         for site_name, site_sql in site_texts:
             hit = None
-            for cond, cls, code, bl, gs in dl:
+            for cond, cls, code, bl, gs in (dl if site_sql is not None else []):
                 if holds(cond, tl) and guards_hold(P, gs, site_sql):
                     hit = (cond, cls, code, bl)
                     break
